@@ -88,7 +88,9 @@ func (t tagBlockInformation) Super() (*Value, error) {
 
 	superCtx := NewChildExecutionContext(t.ctx)
 	superCtx.Private["block"] = tagBlockInformation{
-		ctx:      t.ctx,
+		// the next block.Super (inside the parent definition) starts from
+		// the parent definition's own context, like the first one did
+		ctx:      superCtx,
 		wrappers: t.wrappers[0 : lenWrappers-1],
 	}
 
